@@ -221,6 +221,7 @@ package cache
 // writeBlock: a block is the 8-byte big-endian length of the marshalled block followed by exactly
 // those bytes; a marshal or write error is reported and stops the block.
 //@ func (c *Cache) writeDump$1 [C19]
+//@   log writeBlock
 //@   wraparound
 //@   requires gw != nil && block != nil
 //@   modifies *
@@ -232,6 +233,17 @@ package cache
 //@   ensures calls(gzWrite) >= 1 && ret(gzWrite, 0, 1) != nil ==> result != nil && calls(gzWrite) == 1
 //@   ensures calls(gzWrite) == 2 && ret(gzWrite, 1, 1) != nil ==> result != nil
 //@   ensures result == nil ==> calls(gzWrite) == 2 && calls(blockReset) == 1 && ret(protoMarshal, 0, 1) == nil
+
+// writeDump: the entries are produced by one pass over the cache; an error from that pass is
+// returned; entries still buffered after the pass are written as a last block; errors of that block
+// and of closing the gzip stream are returned.
+//@ func (c *Cache) writeDump [C19]
+//@   requires c != nil && c.backend != nil
+//@   modifies *
+//@   ensures calls(cacheRange) == 1 && arg(cacheRange, 0, 0) == c.backend
+//@   ensures ret(cacheRange, 0) != nil ==> result_1 != nil && calls(gzClose) == 0
+//@   ensures ret(cacheRange, 0) == nil && aftercall(cacheRange, 0, len(block.Entries)) > 0 ==> calls(writeBlock) == 1 && (ret(writeBlock, 0) != nil ==> result_1 != nil)
+//@   ensures result_1 == nil ==> calls(gzClose) == 1 && ret(gzClose, 0) == nil
 
 // readDump: blocks are read until one fails; only the end marker (EOF exactly at a block boundary)
 // ends the load without error — any other read or decode error is returned to the caller.
